@@ -13,6 +13,11 @@ class StubError(Exception):
     pass
 
 
+RAISE7 = [StubError]
+RAISE_KINDS = {'StubError': StubError, 'TypeError': TypeError, 'ValueError': ValueError, 'AttributeError': AttributeError,
+               'OSError': OSError, 'RuntimeError': RuntimeError, 'IndexError': IndexError}
+
+
 XS = [1, 2, -3, 4, 5, 6]                 # the x values of the normal bindings, in key-class order
 REAL = {1: 1010, 2: 2.5, -3: 'neg three', 4: None, 5: 1050, 6: 'six'}   # scalars: the sqlite fallback stores nothing else
 
@@ -33,7 +38,9 @@ def _body(name, x, y):
         cb, DURING[0] = DURING[0], None
         cb()
     if x == 7:
-        e = StubError('stub failure for x=7')
+        # (the class of this exception is configurable: a decorator must pass on whatever the function raises,
+        # also the exception types it catches itself for its own purposes - TypeError, ValueError, ...)
+        e = RAISE7[0]('stub failure for x=7')
         LAST_EXC[0] = e
         raise e
     if x == 8:
